@@ -2,6 +2,7 @@ import Bpmn.Props.C19
 import Bpmn.Props.C19Current
 open Bpmn.Props.C19
 #print axioms C19_holds_partial
+#print axioms C19_general
 #print axioms C19_counterexample_activity_not_stored
 #print axioms process_wellformed
 #print axioms sequential_ids_unique
@@ -15,5 +16,6 @@ open Bpmn.Props.C19
 #print axioms current_sizes
 #print axioms current_defaults_cover_sizes
 #print axioms current_default_layout_no_overlap
-#print axioms current_stored_types
+#print axioms current_stored_dichotomy
+#print axioms current_C19
 #print axioms current_id_source_found
